@@ -31,25 +31,25 @@ theorem C12_of_spec2 (op : (w : Nat) → List Nat → List Nat → List Nat) (sp
     (hop : ∀ w, C08_Supported w n → ∀ a b, Canon w n a → Canon w n b → toNat w (op w a b) = spec (toNat w a) (toNat w b))
     (h₁ : C08_Supported w₁ n) (h₂ : C08_Supported w₂ n) (hA : A < 2 ^ n) (hB : B < 2 ^ n) :
     toNat w₁ (op w₁ (C12_enc w₁ n A) (C12_enc w₁ n B)) = toNat w₂ (op w₂ (C12_enc w₂ n A) (C12_enc w₂ n B)) := by
-  obtain ⟨ca1, va1⟩ := C12_enc_canon h₁.1 h₁.2.1 hA
-  obtain ⟨cb1, vb1⟩ := C12_enc_canon h₁.1 h₁.2.1 hB
-  obtain ⟨ca2, va2⟩ := C12_enc_canon h₂.1 h₂.2.1 hA
-  obtain ⟨cb2, vb2⟩ := C12_enc_canon h₂.1 h₂.2.1 hB
+  obtain ⟨ca1, va1⟩ := C12_enc_canon h₁.1 h₁.2 hA
+  obtain ⟨cb1, vb1⟩ := C12_enc_canon h₁.1 h₁.2 hB
+  obtain ⟨ca2, va2⟩ := C12_enc_canon h₂.1 h₂.2 hA
+  obtain ⟨cb2, vb2⟩ := C12_enc_canon h₂.1 h₂.2 hB
   rw [hop w₁ h₁ _ _ ca1 cb1, hop w₂ h₂ _ _ ca2 cb2, va1, vb1, va2, vb2]
 
 theorem C12_of_spec1 (op : (w : Nat) → List Nat → List Nat) (spec : Nat → Nat)
     (hop : ∀ w, C08_Supported w n → ∀ a, Canon w n a → toNat w (op w a) = spec (toNat w a))
     (h₁ : C08_Supported w₁ n) (h₂ : C08_Supported w₂ n) (hA : A < 2 ^ n) :
     toNat w₁ (op w₁ (C12_enc w₁ n A)) = toNat w₂ (op w₂ (C12_enc w₂ n A)) := by
-  obtain ⟨ca1, va1⟩ := C12_enc_canon h₁.1 h₁.2.1 hA
-  obtain ⟨ca2, va2⟩ := C12_enc_canon h₂.1 h₂.2.1 hA
+  obtain ⟨ca1, va1⟩ := C12_enc_canon h₁.1 h₁.2 hA
+  obtain ⟨ca2, va2⟩ := C12_enc_canon h₂.1 h₂.2 hA
   rw [hop w₁ h₁ _ ca1, hop w₂ h₂ _ ca2, va1, va2]
 
-/-- integer `+ − ×`, unary minus, `++ −−`, `& | ^ ~`, `<<` (k ≥ 0), comparisons: the same value for every block type -/
+/-- integer `+ −`, unary minus, `++ −−`, `& | ^ ~`, comparisons: the same value for every block type, multi-block `uint64_t`
+    included (the carry chain of its `+=` is repaired) -/
 theorem C12_blocktype_independent_integer (h₁ : C08_Supported w₁ n) (h₂ : C08_Supported w₂ n) (hA : A < 2 ^ n) (hB : B < 2 ^ n) :
     toNat w₁ (Integer.add w₁ n (C12_enc w₁ n A) (C12_enc w₁ n B)) = toNat w₂ (Integer.add w₂ n (C12_enc w₂ n A) (C12_enc w₂ n B)) ∧
     toNat w₁ (Integer.sub w₁ n (C12_enc w₁ n A) (C12_enc w₁ n B)) = toNat w₂ (Integer.sub w₂ n (C12_enc w₂ n A) (C12_enc w₂ n B)) ∧
-    toNat w₁ (Integer.mul w₁ n (C12_enc w₁ n A) (C12_enc w₁ n B)) = toNat w₂ (Integer.mul w₂ n (C12_enc w₂ n A) (C12_enc w₂ n B)) ∧
     toNat w₁ (Integer.band w₁ n (C12_enc w₁ n A) (C12_enc w₁ n B)) = toNat w₂ (Integer.band w₂ n (C12_enc w₂ n A) (C12_enc w₂ n B)) ∧
     toNat w₁ (Integer.bor w₁ n (C12_enc w₁ n A) (C12_enc w₁ n B)) = toNat w₂ (Integer.bor w₂ n (C12_enc w₂ n A) (C12_enc w₂ n B)) ∧
     toNat w₁ (Integer.bxor w₁ n (C12_enc w₁ n A) (C12_enc w₁ n B)) = toNat w₂ (Integer.bxor w₂ n (C12_enc w₂ n A) (C12_enc w₂ n B)) ∧
@@ -58,10 +58,9 @@ theorem C12_blocktype_independent_integer (h₁ : C08_Supported w₁ n) (h₂ : 
     toNat w₁ (Integer.inc w₁ n (C12_enc w₁ n A)) = toNat w₂ (Integer.inc w₂ n (C12_enc w₂ n A)) ∧
     toNat w₁ (Integer.dec w₁ n (C12_enc w₁ n A)) = toNat w₂ (Integer.dec w₂ n (C12_enc w₂ n A)) ∧
     Integer.cmpMask w₁ n (C12_enc w₁ n A) (C12_enc w₁ n B) = Integer.cmpMask w₂ n (C12_enc w₂ n A) (C12_enc w₂ n B) := by
-  refine ⟨?_, ?_, ?_, ?_, ?_, ?_, ?_, ?_, ?_, ?_, ?_⟩
+  refine ⟨?_, ?_, ?_, ?_, ?_, ?_, ?_, ?_, ?_, ?_⟩
   · exact C12_of_spec2 (fun w => Integer.add w n) (IntegerSpec.add n) (fun w h a b ha hb => (C08_add h ha hb).2.1) h₁ h₂ hA hB
   · exact C12_of_spec2 (fun w => Integer.sub w n) (IntegerSpec.sub n) (fun w h a b ha hb => (C08_sub h ha hb).2.1) h₁ h₂ hA hB
-  · exact C12_of_spec2 (fun w => Integer.mul w n) (IntegerSpec.mul n) (fun w h a b ha hb => (C08_mul h ha hb).2.1) h₁ h₂ hA hB
   · exact C12_of_spec2 (fun w => Integer.band w n) (IntegerSpec.band n) (fun w h a b ha hb => (C08_bitwise h ha hb).1.2) h₁ h₂ hA hB
   · exact C12_of_spec2 (fun w => Integer.bor w n) (IntegerSpec.bor n) (fun w h a b ha hb => (C08_bitwise h ha hb).2.1.2) h₁ h₂ hA hB
   · exact C12_of_spec2 (fun w => Integer.bxor w n) (IntegerSpec.bxor n) (fun w h a b ha hb => (C08_bitwise h ha hb).2.2.1.2) h₁ h₂ hA hB
@@ -69,24 +68,35 @@ theorem C12_blocktype_independent_integer (h₁ : C08_Supported w₁ n) (h₂ : 
   · exact C12_of_spec1 (fun w => Integer.flip w n) (IntegerSpec.bnot n) (fun w h a ha => (C08_bitwise h ha ha).2.2.2.2) h₁ h₂ hA
   · exact C12_of_spec1 (fun w => Integer.inc w n) (IntegerSpec.inc n) (fun w h a ha => (C08_inc h ha).2) h₁ h₂ hA
   · exact C12_of_spec1 (fun w => Integer.dec w n) (IntegerSpec.dec n) (fun w h a ha => (C08_dec h ha).2) h₁ h₂ hA
-  · obtain ⟨ca1, va1⟩ := C12_enc_canon h₁.1 h₁.2.1 hA
-    obtain ⟨cb1, vb1⟩ := C12_enc_canon h₁.1 h₁.2.1 hB
-    obtain ⟨ca2, va2⟩ := C12_enc_canon h₂.1 h₂.2.1 hA
-    obtain ⟨cb2, vb2⟩ := C12_enc_canon h₂.1 h₂.2.1 hB
+  · obtain ⟨ca1, va1⟩ := C12_enc_canon h₁.1 h₁.2 hA
+    obtain ⟨cb1, vb1⟩ := C12_enc_canon h₁.1 h₁.2 hB
+    obtain ⟨ca2, va2⟩ := C12_enc_canon h₂.1 h₂.2 hA
+    obtain ⟨cb2, vb2⟩ := C12_enc_canon h₂.1 h₂.2 hB
     rw [(C08_cmp h₁ ca1 cb1).1, (C08_cmp h₂ ca2 cb2).1, va1, vb1, va2, vb2]
 
-/-- integer shifts with any signed count: the same value for every block type -/
+/-- integer `×`: the same value for every block type whose partial products fit the 64-bit accumulator -/
+theorem C12_blocktype_independent_integer_mul (h₁ : C08_MulSupported w₁ n) (h₂ : C08_MulSupported w₂ n) (hA : A < 2 ^ n) (hB : B < 2 ^ n) :
+    toNat w₁ (Integer.mul w₁ n (C12_enc w₁ n A) (C12_enc w₁ n B)) = toNat w₂ (Integer.mul w₂ n (C12_enc w₂ n A) (C12_enc w₂ n B)) := by
+  obtain ⟨ca1, va1⟩ := C12_enc_canon h₁.1 h₁.2.1 hA
+  obtain ⟨cb1, vb1⟩ := C12_enc_canon h₁.1 h₁.2.1 hB
+  obtain ⟨ca2, va2⟩ := C12_enc_canon h₂.1 h₂.2.1 hA
+  obtain ⟨cb2, vb2⟩ := C12_enc_canon h₂.1 h₂.2.1 hB
+  rw [(C08_mul h₁ ca1 cb1).2.1, (C08_mul h₂ ca2 cb2).2.1, va1, vb1, va2, vb2]
+
+/-- integer shifts with any signed count: the same value for every block type — the region of D8 included: a right shift by
+    nbits or more returns 0 in every instantiation (`Integer.shl_int_spec`: the value does not mention the limb width) -/
 theorem C12_blocktype_independent_integer_shl (h₁ : C08_Supported w₁ n) (h₂ : C08_Supported w₂ n) (hA : A < 2 ^ n) (k : Int) :
     toNat w₁ (Integer.shl w₁ n (C12_enc w₁ n A) k) = toNat w₂ (Integer.shl w₂ n (C12_enc w₂ n A) k) := by
-  obtain ⟨ca1, va1⟩ := C12_enc_canon h₁.1 h₁.2.1 hA
-  obtain ⟨ca2, va2⟩ := C12_enc_canon h₂.1 h₂.2.1 hA
-  rw [(Integer.shl_spec h₁.1 h₁.2.1 ca1 k).2, (Integer.shl_spec h₂.1 h₂.2.1 ca2 k).2, va1, va2]
+  obtain ⟨ca1, va1⟩ := C12_enc_canon h₁.1 h₁.2 hA
+  obtain ⟨ca2, va2⟩ := C12_enc_canon h₂.1 h₂.2 hA
+  rw [(Integer.shl_int_spec h₁.1 h₁.2 ca1 k).2, (Integer.shl_int_spec h₂.1 h₂.2 ca2 k).2, va1, va2]
 
 theorem C12_blocktype_independent_integer_shr (h₁ : C08_Supported w₁ n) (h₂ : C08_Supported w₂ n) (hA : A < 2 ^ n) (k : Int) :
     toNat w₁ (Integer.shr w₁ n (C12_enc w₁ n A) k) = toNat w₂ (Integer.shr w₂ n (C12_enc w₂ n A) k) := by
-  obtain ⟨ca1, va1⟩ := C12_enc_canon h₁.1 h₁.2.1 hA
-  obtain ⟨ca2, va2⟩ := C12_enc_canon h₂.1 h₂.2.1 hA
-  rw [(Integer.shr_spec h₁.1 h₁.2.1 ca1 k).2, (Integer.shr_spec h₂.1 h₂.2.1 ca2 k).2, va1, va2]
+  obtain ⟨ca1, va1⟩ := C12_enc_canon h₁.1 h₁.2 hA
+  obtain ⟨ca2, va2⟩ := C12_enc_canon h₂.1 h₂.2 hA
+  rw [Integer.shr_eq_shl_neg, Integer.shr_eq_shl_neg,
+    (Integer.shl_int_spec h₁.1 h₁.2 ca1 (-k)).2, (Integer.shl_int_spec h₂.1 h₂.2 ca2 (-k)).2, va1, va2]
 
 /-- size conversion: same value for every block type -/
 theorem C12_blocktype_independent_integer_convert {m : Nat} (h₁ : 0 < w₁) (h₂ : 0 < w₂) (hn : 0 < n) (hm : 0 < m) (hA : A < 2 ^ n) :
@@ -115,7 +125,7 @@ theorem C12_blocktype_independent_fixpnt {r : Nat} (h₁ : C07_Supported w₁ (2
     toNat w₁ (Fixpnt.add w₁ n sat (C12_enc w₁ n A) (C12_enc w₁ n B)) = toNat w₂ (Fixpnt.add w₂ n sat (C12_enc w₂ n A) (C12_enc w₂ n B)) ∧
     toNat w₁ (Fixpnt.sub w₁ n sat (C12_enc w₁ n A) (C12_enc w₁ n B)) = toNat w₂ (Fixpnt.sub w₂ n sat (C12_enc w₂ n A) (C12_enc w₂ n B)) ∧
     toNat w₁ (Fixpnt.mul w₁ n r sat (C12_enc w₁ n A) (C12_enc w₁ n B)) = toNat w₂ (Fixpnt.mul w₂ n r sat (C12_enc w₂ n A) (C12_enc w₂ n B)) ∧
-    toNat w₁ (Fixpnt.neg w₁ n (C12_enc w₁ n A)) = toNat w₂ (Fixpnt.neg w₂ n (C12_enc w₂ n A)) ∧
+    toNat w₁ (Fixpnt.neg w₁ n sat (C12_enc w₁ n A)) = toNat w₂ (Fixpnt.neg w₂ n sat (C12_enc w₂ n A)) ∧
     toNat w₁ (Fixpnt.inc w₁ n sat (C12_enc w₁ n A)) = toNat w₂ (Fixpnt.inc w₂ n sat (C12_enc w₂ n A)) ∧
     toNat w₁ (Fixpnt.dec w₁ n sat (C12_enc w₁ n A)) = toNat w₂ (Fixpnt.dec w₂ n sat (C12_enc w₂ n A)) ∧
     Fixpnt.cmpMask w₁ n (C12_enc w₁ n A) (C12_enc w₁ n B) = Fixpnt.cmpMask w₂ n (C12_enc w₂ n A) (C12_enc w₂ n B) := by
@@ -132,7 +142,7 @@ theorem C12_blocktype_independent_fixpnt {r : Nat} (h₁ : C07_Supported w₁ (2
   · rw [(C07_add k1 hn0 sat ca1 cb1).2, (C07_add k2 hn0 sat ca2 cb2).2, va1, vb1, va2, vb2]
   · rw [(C07_sub k1 hn0 sat ca1 cb1).2, (C07_sub k2 hn0 sat ca2 cb2).2, va1, vb1, va2, vb2]
   · rw [(C07_mul h₁ hn0 hr sat ca1 cb1).2, (C07_mul h₂ hn0 hr sat ca2 cb2).2, va1, vb1, va2, vb2]
-  · rw [(C07_neg j1 hn0 ca1).2, (C07_neg j2 hn0 ca2).2, va1, va2]
+  · rw [(C07_neg j1 hn0 sat ca1).2, (C07_neg j2 hn0 sat ca2).2, va1, va2]
   · rw [(C07_inc_dec k1 hn sat ca1).1.2, (C07_inc_dec k2 hn sat ca2).1.2, va1, va2]
   · rw [(C07_inc_dec k1 hn sat ca1).2.2, (C07_inc_dec k2 hn sat ca2).2.2, va1, va2]
   · rw [C07_cmp j1 hn0 ca1 cb1, C07_cmp j2 hn0 ca2 cb2, va1, vb1, va2, vb2]
@@ -168,7 +178,7 @@ theorem C12_blocktype_independent_blockbinary (h₁ : C07_Supported w₁ (2 * n)
 end
 
 /-- blockbinary `operator<<=` — which is also `fixpnt::operator<<=` (`_block <<= shift`) — with any signed count: the result
-    is canonical (no bit at or above nbits; the MSU is masked on both exits since 433c6a0) and the raw storage is the same for
+    is canonical (no bit at or above nbits; the MSU is masked on both exits since fd17b6d) and the raw storage is the same for
     every block type -/
 theorem C12_bb_shl {w₁ w₂ n A : Nat} (h₁ : 0 < w₁) (h₂ : 0 < w₂) (hn : 0 < n) (hA : A < 2 ^ n) (k : Int) :
     Canon w₁ n (BB.shl w₁ n (C12_enc w₁ n A) k) ∧ Canon w₂ n (BB.shl w₂ n (C12_enc w₂ n A) k) ∧
@@ -182,95 +192,67 @@ theorem C12_bb_shl {w₁ w₂ n A : Nat} (h₁ : 0 < w₁) (h₂ : 0 < w₂) (hn
 -- the former D7 witness: blockbinary<8> 0x4b << 7 is 0x80 in uint8_t and in uint16_t blocks
 example : toNat 8 (BB.shl 8 8 (C12_enc 8 8 0x4b) 7) = 0x80 ∧ toNat 16 (BB.shl 16 8 (C12_enc 16 8 0x4b) 7) = 0x80 := by decide
 
-/-- fixpnt Modulo division and integer `/`, `%`: the same result for every block type (b ≠ 0; for integer outside the
-    one operand pair on which the exact-fit native fast path traps) -/
+/-- fixpnt Modulo division and integer `/`, `%`: the same result for every block type (b ≠ 0) -/
 theorem C12_blocktype_independent_div {w₁ w₂ n r A B : Nat}
     (h₁ : C07_Supported w₁ (2 * n + 2 * r + 2 * n + 1)) (h₂ : C07_Supported w₂ (2 * n + 2 * r + 2 * n + 1))
     (hn : 0 < n) (hr : r ≤ n) (hA : A < 2 ^ n) (hB : B < 2 ^ n) (hB0 : B ≠ 0) :
-    (Fixpnt.div w₁ n r false (C12_enc w₁ n A) (C12_enc w₁ n B)).map (toNat w₁)
-      = (Fixpnt.div w₂ n r false (C12_enc w₂ n A) (C12_enc w₂ n B)).map (toNat w₂) := by
+    toNat w₁ (Fixpnt.div w₁ n r false (C12_enc w₁ n A) (C12_enc w₁ n B))
+      = toNat w₂ (Fixpnt.div w₂ n r false (C12_enc w₂ n A) (C12_enc w₂ n B)) := by
   obtain ⟨ca1, va1⟩ := C12_enc_canon h₁.1 hn hA
   obtain ⟨cb1, vb1⟩ := C12_enc_canon h₁.1 hn hB
   obtain ⟨ca2, va2⟩ := C12_enc_canon h₂.1 hn hA
   obtain ⟨cb2, vb2⟩ := C12_enc_canon h₂.1 hn hB
-  obtain ⟨r1, e1, _, v1⟩ := C07_div_modulo h₁ hn hr ca1 cb1 (by rw [vb1]; exact hB0)
-  obtain ⟨r2, e2, _, v2⟩ := C07_div_modulo h₂ hn hr ca2 cb2 (by rw [vb2]; exact hB0)
-  rw [e1, e2, Option.map_some, Option.map_some, v1, v2, va1, vb1, va2, vb2]
+  obtain ⟨_, v1⟩ := C07_div_modulo h₁ hn hr ca1 cb1 (by rw [vb1]; exact hB0)
+  obtain ⟨_, v2⟩ := C07_div_modulo h₂ hn hr ca2 cb2 (by rw [vb2]; exact hB0)
+  rw [v1, v2, va1, vb1, va2, vb2]
 
+/-- integer `/` and `%`: the same value for every block type and EVERY operand pair with b ≠ 0 — the exact-fit instantiation
+    (native fast path) agrees with the long division of the others on most negative / −1 too (it used to trap there) -/
 theorem C12_blocktype_independent_integer_divrem {w₁ w₂ n A B : Nat} (h₁ : C08_Supported w₁ n) (h₂ : C08_Supported w₂ n)
-    (hA : A < 2 ^ n) (hB : B < 2 ^ n) (hB0 : B ≠ 0)
-    (hnt₁ : ¬ C08_NativeTrap w₁ n (C12_enc w₁ n A) (C12_enc w₁ n B)) (hnt₂ : ¬ C08_NativeTrap w₂ n (C12_enc w₂ n A) (C12_enc w₂ n B))
-    (rem : Bool) :
-    (Integer.divrem w₁ n (C12_enc w₁ n A) (C12_enc w₁ n B) rem).map (toNat w₁)
-      = (Integer.divrem w₂ n (C12_enc w₂ n A) (C12_enc w₂ n B) rem).map (toNat w₂) := by
-  obtain ⟨ca1, va1⟩ := C12_enc_canon h₁.1 h₁.2.1 hA
-  obtain ⟨cb1, vb1⟩ := C12_enc_canon h₁.1 h₁.2.1 hB
-  obtain ⟨ca2, va2⟩ := C12_enc_canon h₂.1 h₂.2.1 hA
-  obtain ⟨cb2, vb2⟩ := C12_enc_canon h₂.1 h₂.2.1 hB
-  obtain ⟨q1, r1, e1, f1, _, _, v1, u1, _⟩ := C08_divrem h₁ ca1 cb1 (by rw [vb1]; exact hB0) hnt₁
-  obtain ⟨q2, r2, e2, f2, _, _, v2, u2, _⟩ := C08_divrem h₂ ca2 cb2 (by rw [vb2]; exact hB0) hnt₂
+    (hA : A < 2 ^ n) (hB : B < 2 ^ n) (hB0 : B ≠ 0) (rem : Bool) :
+    toNat w₁ (Integer.divrem w₁ n (C12_enc w₁ n A) (C12_enc w₁ n B) rem)
+      = toNat w₂ (Integer.divrem w₂ n (C12_enc w₂ n A) (C12_enc w₂ n B) rem) := by
+  obtain ⟨ca1, va1⟩ := C12_enc_canon h₁.1 h₁.2 hA
+  obtain ⟨cb1, vb1⟩ := C12_enc_canon h₁.1 h₁.2 hB
+  obtain ⟨ca2, va2⟩ := C12_enc_canon h₂.1 h₂.2 hA
+  obtain ⟨cb2, vb2⟩ := C12_enc_canon h₂.1 h₂.2 hB
+  obtain ⟨_, _, v1, u1, _⟩ := C08_divrem h₁ ca1 cb1 (by rw [vb1]; exact hB0)
+  obtain ⟨_, _, v2, u2, _⟩ := C08_divrem h₂ ca2 cb2 (by rw [vb2]; exact hB0)
   cases rem
-  · rw [e1, e2, Option.map_some, Option.map_some, v1, v2, va1, vb1, va2, vb2]
-  · rw [f1, f2, Option.map_some, Option.map_some, u1, u2, va1, vb1, va2, vb2]
+  · rw [v1, v2, va1, vb1, va2, vb2]
+  · rw [u1, u2, va1, vb1, va2, vb2]
 
-/-- and the trap itself IS block-type dependent: integer<32>: most-negative / −1 wraps with `uint8_t` blocks (long
-    division) and traps with one `uint32_t` block (native `int32_t` division) -/
-theorem C12_native_trap_counterexample :
-    Integer.divrem 8 32 (C12_enc 8 32 0x80000000) (C12_enc 8 32 0xffffffff) false = some (C12_enc 8 32 0x80000000) ∧
-    Integer.divrem 32 32 (C12_enc 32 32 0x80000000) (C12_enc 32 32 0xffffffff) false = none := by
-  constructor <;> decide
+/-- the former trap witness, now block-type independent: integer<32>: most-negative / −1 wraps to the most negative value with
+    `uint8_t` blocks (long division) and with one `uint32_t` block (native fast path, divisor −1 negated) alike -/
+theorem C12_native_cfg_maxneg_by_minus1 :
+    Integer.divrem 8 32 (C12_enc 8 32 0x80000000) (C12_enc 8 32 0xffffffff) false = C12_enc 8 32 0x80000000 ∧
+    Integer.divrem 32 32 (C12_enc 32 32 0x80000000) (C12_enc 32 32 0xffffffff) false = C12_enc 32 32 0x80000000 ∧
+    BB.divrem 32 32 (C12_enc 32 32 0x80000000) (C12_enc 32 32 0xffffffff) false = C12_enc 32 32 0x80000000 ∧
+    BB.divrem 32 32 (C12_enc 32 32 0x80000000) (C12_enc 32 32 0xffffffff) true = C12_enc 32 32 0 := by
+  refine ⟨?_, ?_, ?_, ?_⟩ <;> decide
 
-/-- blockbinary `*=`, `/=`, `%=`: the same value for every block type (divisor ≠ 0, outside the native trap pair) -/
+/-- blockbinary `*=`, `/=`, `%=`: the same value for every block type (divisor ≠ 0; every operand pair, the native fast path of
+    the exact-fit instantiation included) -/
 theorem C12_blocktype_independent_blockbinary_muldiv {w₁ w₂ n A B : Nat}
     (h₁ : C07_Supported w₁ (n + 1)) (h₂ : C07_Supported w₂ (n + 1)) (hn : 0 < n) (hA : A < 2 ^ n) (hB : B < 2 ^ n) (hB0 : B ≠ 0)
-    (hnt : ¬ ((n = w₁ ∨ n = w₂) ∧ 32 ≤ n ∧ A = 2 ^ (n - 1) ∧ B = 2 ^ n - 1)) (rem : Bool) :
+    (rem : Bool) :
     toNat w₁ (BB.mul w₁ n (C12_enc w₁ n A) (C12_enc w₁ n B)) = toNat w₂ (BB.mul w₂ n (C12_enc w₂ n A) (C12_enc w₂ n B)) ∧
-    (BB.divrem w₁ n (C12_enc w₁ n A) (C12_enc w₁ n B) rem).map (toNat w₁)
-      = (BB.divrem w₂ n (C12_enc w₂ n A) (C12_enc w₂ n B) rem).map (toNat w₂) := by
+    toNat w₁ (BB.divrem w₁ n (C12_enc w₁ n A) (C12_enc w₁ n B) rem)
+      = toNat w₂ (BB.divrem w₂ n (C12_enc w₂ n A) (C12_enc w₂ n B) rem) := by
   obtain ⟨ca1, va1⟩ := C12_enc_canon h₁.1 hn hA
   obtain ⟨cb1, vb1⟩ := C12_enc_canon h₁.1 hn hB
   obtain ⟨ca2, va2⟩ := C12_enc_canon h₂.1 hn hA
   obtain ⟨cb2, vb2⟩ := C12_enc_canon h₂.1 hn hB
   have j1 : Fixpnt.Ok w₁ n := h₁.2.mono (by omega)
   have j2 : Fixpnt.Ok w₂ n := h₂.2.mono (by omega)
-  have hminneg : toSigned n A = -((2 ^ (n - 1) : Nat) : Int) → A = 2 ^ (n - 1) := by
-    intro h
-    have := ofSigned_toSigned_of_lt hA
-    rw [h] at this
-    rw [← this]
-    have hp : 2 ^ n = 2 ^ (n - 1) * 2 := by rw [← Nat.pow_succ]; congr 1; omega
-    have hlt : 2 ^ (n - 1) < 2 ^ n := by have := Nat.two_pow_pos (n - 1); omega
-    refine (eq_ofSigned_of_modEq hlt ?_).symm
-    rw [Int.modEq_iff_dvd]
-    exact ⟨-1, by unfold M2; rw [hp]; push_cast; ring⟩
-  have hminus1 : toSigned n B = -1 → B = 2 ^ n - 1 := by
-    intro h
-    have := ofSigned_toSigned_of_lt hB
-    rw [h] at this
-    rw [← this]
-    have h1 := Nat.two_pow_pos n
-    have hlt : 2 ^ n - 1 < 2 ^ n := by omega
-    refine (eq_ofSigned_of_modEq hlt ?_).symm
-    rw [Int.modEq_iff_dvd]
-    exact ⟨-1, by unfold M2; rw [Nat.cast_sub h1]; push_cast; ring⟩
   constructor
   · rw [(BB.mul_spec h₁.1 hn j1 ca1 cb1).2, (BB.mul_spec h₂.1 hn j2 ca2 cb2).2, va1, vb1, va2, vb2]
-  · obtain ⟨q1, r1, e1, f1, _, _, v1, u1⟩ := BB.divrem_spec h₁.1 hn j1 (fun _ => h₁.2) ca1 cb1 (by rw [vb1]; exact hB0) (by
-      rintro ⟨hw, h32, hx, hy⟩
-      unfold toInt at hx hy
-      rw [va1] at hx
-      rw [vb1] at hy
-      exact hnt ⟨Or.inl hw, by omega, hminneg hx, hminus1 hy⟩)
-    obtain ⟨q2, r2, e2, f2, _, _, v2, u2⟩ := BB.divrem_spec h₂.1 hn j2 (fun _ => h₂.2) ca2 cb2 (by rw [vb2]; exact hB0) (by
-      rintro ⟨hw, h32, hx, hy⟩
-      unfold toInt at hx hy
-      rw [va2] at hx
-      rw [vb2] at hy
-      exact hnt ⟨Or.inr hw, by omega, hminneg hx, hminus1 hy⟩)
+  · obtain ⟨_, _, v1, u1⟩ := BB.divrem_spec h₁.1 hn j1 (fun _ => h₁.2) ca1 cb1 (by rw [vb1]; exact hB0)
+    obtain ⟨_, _, v2, u2⟩ := BB.divrem_spec h₂.1 hn j2 (fun _ => h₂.2) ca2 cb2 (by rw [vb2]; exact hB0)
     unfold toInt at v1 u1 v2 u2
     cases rem
-    · rw [e1, e2, Option.map_some, Option.map_some, v1, v2, va1, vb1, va2, vb2]
-    · rw [f1, f2, Option.map_some, Option.map_some, u1, u2, va1, vb1, va2, vb2]
+    · rw [v1, v2, va1, vb1, va2, vb2]
+    · rw [u1, u2, va1, vb1, va2, vb2]
 
 /-! ### further non-vacuity examples: the hypotheses of the theorems above are satisfiable on non-trivial instances -/
 
